@@ -57,8 +57,8 @@ PROPS = {
             "technique": "Coq-proved static analysis over a regenerated guard IR + reflection-driven differential check",
             "assumptions": ["panics other than nil dereference of the embedded pointer / configuration record are covered by the dynamic family only"]},
     "C10": {"props_file": "Props/C10.v", "families": ["sched"], "design_ref": "DESIGN.md §8 C10",
-            "level_text": "Partial. Proved (Conc.v/ConcProofs.v): in the interleaving model at lock-acquisition granularity (unlocked wrapper part; acquire+critical section+release), for ANY number of goroutines, ANY programs of the eight mutators and ANY schedule, no call panics, the shared slice stays well-formed (configuration slot never returned or removed, capacity respected), and the completed calls - in the order they took effect, which respects every goroutine's own order - are a sequential execution of the list model that returns exactly the values the goroutines got and ends in exactly the shared content (linearizability); some goroutine can always move (no deadlock at this granularity). Refuted in the model and recorded as known finding: freedom from data races (the public wrappers read the slice header and option word before requesting the lock). Not expressible in the model: the Go memory model, the scheduler, sync.Mutex internals. The sched family enforces enumerated interleavings on the real package through the verifPoint hook.",
-            "technique": "Coq linearizability proof (ghost log invariant, induction over schedules) over the regenerated list model + exhaustive scheduler-controlled differential check",
+            "level_text": "Partial. Proved (Conc.v/ConcProofs.v): in the interleaving model at lock-acquisition granularity (unlocked wrapper part; acquire+critical section+release), for ANY number of goroutines, ANY programs of the eight mutators and ANY schedule, no call panics, the shared slice stays well-formed (configuration slot never returned or removed, capacity respected), and the completed calls - in the order they took effect, which respects every goroutine's own order - are a sequential execution of the list model that returns exactly the values the goroutines got and ends in exactly the shared content (linearizability); some goroutine can always move (no deadlock at this granularity). Proved over the statement-level IR regenerated from /repo (GuardLock.v, translator T2): on every path of each of the eight mutators and of every package function it calls on the same stack, stores into the slice header and element slots happen only between stack.lock and stack.unlock, the lock is never requested while held, and it is released on every exit; the bookkeeping field is stored only inside lock/unlock, after Mutex.Lock and before Mutex.Unlock. Refuted in the model and recorded as known finding: freedom from data races (the public wrappers read the slice header and option word before requesting the lock). Not expressible in the model: the Go memory model, the scheduler, sync.Mutex internals. The sched family enforces enumerated interleavings on the real package through the verifPoint hook.",
+            "technique": "Coq linearizability proof (ghost log invariant, induction over schedules) over the regenerated list model + Coq-verified lockset analysis of the regenerated statement IR + exhaustive scheduler-controlled differential check",
             "race": {"mode": "mutators", "rounds": [40, 1500], "workers": 8},
             "assumptions": ["sync.Mutex is an ideal exclusive lock; critical sections are atomic actions", "the Go memory model (torn reads, reordering) and goroutine scheduling are outside the model: partial", "the race-freedom sentence of the property is refuted at footprint level (known finding C10/unlocked-wrapper-reads), not proved"]},
     "C13": {"props_file": "Props/C13.v", "families": ["nesting", "cond"], "design_ref": "DESIGN.md §8 C13",
